@@ -189,3 +189,89 @@ func c07Executor(c *core.Ctx) {
 	}
 	_ = core.ModPath
 }
+
+// writesAndSyncs: a successful return of h implies that the file named by its
+// parameter idx was written (os.WriteFile) and synced (syncFileMaybe /
+// File.Sync on the same path).
+func writesAndSyncs(h *ssa.Function) (int, bool) {
+	if len(h.Blocks) == 0 {
+		return 0, false
+	}
+	ws := an.CallsTo(h, false, "os.WriteFile")
+	ss := an.CallsTo(h, false, "snapshot/plan.syncFileMaybe", "os.File.Sync")
+	if len(ws) != 1 || len(ss) != 1 {
+		return 0, false
+	}
+	idx := -1
+	for i, p := range h.Params {
+		if an.Unwrap(ws[0].Common().Args[0]) == ssa.Value(p) {
+			idx = i
+		}
+	}
+	if idx < 0 || ss[0].Common().Args[0] != ws[0].Common().Args[0] {
+		return 0, false
+	}
+	g1 := an.SenseEdges(h, an.ErrResult(ws[0]), an.IsNil)
+	g2 := an.SenseEdges(h, an.ErrResult(ss[0]), an.IsNil)
+	if len(g1) == 0 {
+		return 0, false
+	}
+	succ := an.SuccessReturns(h)
+	if len(succ) == 0 {
+		return 0, false
+	}
+	for _, r := range succ {
+		ret := r
+		sink := func(in ssa.Instruction) bool { return in == ssa.Instruction(ret) }
+		if len(an.Ungated(an.CutSpec{Fn: h, GateEdge: g1, Sink: sink})) > 0 {
+			return 0, false
+		}
+		// the sync's own result is returned, or its nil edge gates the return
+		direct := len(ret.Results) > 0 && ret.Results[len(ret.Results)-1] == ss[0].Value()
+		if !direct && (len(g2) == 0 || len(an.Ungated(an.CutSpec{Fn: h, GateEdge: g2, Sink: sink})) > 0) {
+			return 0, false
+		}
+		if direct && !an.Dominates(ws[0].(ssa.Instruction), ss[0].(ssa.Instruction)) {
+			return 0, false
+		}
+	}
+	return idx, true
+}
+
+// tailDelegate: if a success return of fn hands back the error result of a
+// static call to a module function (`return s.helper()`), the helper decides
+// the outcome of that path; it returns that helper. Rules about "what must have
+// happened before success" are then applied to the helper as well.
+func tailDelegate(fn *ssa.Function) *ssa.Function {
+	var out *ssa.Function
+	for _, r := range an.SuccessReturns(fn) {
+		if len(r.Results) == 0 {
+			continue
+		}
+		v := r.Results[len(r.Results)-1]
+		// named result spilled to a cell: take the value stored in the returning block
+		if ld, ok := v.(*ssa.UnOp); ok && ld.Op == token.MUL {
+			if cell, ok := ld.X.(*ssa.Alloc); ok {
+				instrs := r.Block().Instrs
+				for i := len(instrs) - 1; i >= 0; i-- {
+					if st, ok := instrs[i].(*ssa.Store); ok && st.Addr == ssa.Value(cell) {
+						v = st.Val
+						break
+					}
+				}
+			}
+		}
+		if ex, ok := v.(*ssa.Extract); ok {
+			v = ex.Tuple
+		}
+		call, ok := v.(*ssa.Call)
+		if !ok {
+			continue
+		}
+		callee := call.Call.StaticCallee()
+		if callee != nil && core.InModule(callee) && len(callee.Blocks) > 0 {
+			out = callee
+		}
+	}
+	return out
+}
